@@ -16,7 +16,8 @@ RULE = ('Client / AsyncClient on the real engine.io client object, connected '
         'and ACK / BINARY_ACK frames (id right, repeated, unknown incl. 0, '
         'outstanding on a different namespace, a duplicate processed while '
         'the callback still runs, callbacks and handlers that raise) '
-        'interleaved with client '
+        'interleaved with handlers registered while connected (event, '
+        'catch-all, catch-all namespace) and with client '
         'emit(callback) and call() on several namespaces. Oracle: exactly one '
         'handler invocation with the sent args per event with a responsible '
         'target, none otherwise; exactly one ACK (namespace, id, packed '
@@ -85,6 +86,10 @@ def strategy(tier):
         # the server ends one namespace; the others, with their outstanding
         # callbacks, are not affected
         st.fixed_dictionaries({'op': st.just('sdisc_ns'), 'ns': nsi}),
+        # the application registers one more handler while connected: events
+        # from then on go to whichever handler is now the most specific
+        st.fixed_dictionaries({'op': st.just('reg'),
+                               'what': st.sampled_from(REGS)}),
         st.fixed_dictionaries({'op': st.just('ack'), 'ns': nsi, 'sel': sel,
                                'j': st.integers(0, 5), 'args': args,
                                'dup': st.booleans(),
@@ -104,15 +109,39 @@ def strategy(tier):
         # a function handler for an event the server never sends
         'decoy': st.booleans(),
         'nss': st.lists(nsi, min_size=1, max_size=3, unique=True),
+        # the history ends with events that the server sent right before it
+        # closed the connection (or before the transport failed): they were
+        # read, so their handlers run, whichever is processed first
+        'last': st.one_of(st.none(), st.fixed_dictionaries({
+            'how': st.sampled_from(['close', 'lose']),
+            'evs': st.lists(st.fixed_dictionaries({
+                'ns': nsi, 'name': st.sampled_from(['a', 'b', 'z']),
+                'id': st.one_of(st.none(), st.integers(0, 3)),
+                'binary': st.booleans()}), min_size=1, max_size=3)})),
         'ops': st.lists(op, min_size=4, max_size=60 if big else 25)})
 
 
-def responsible(ns, name):
-    if ns == '/':
-        return 'fn' if name in ('a', 'b') else None
-    if ns == '/a':
-        return 'fn' if name == 'a' else 'catchall'
-    return 'class' if name in ('a', 'b') else None
+REGS = ['root_star', 'root_z', 'a_z', 'b_z', 'star_z', 'star_star']
+
+
+def responsible(ns, name, regs=()):
+    """(kind, label namespace, argument prefix) of the handler that serves
+    event ``name`` on ``ns`` given the handlers registered so far."""
+    events = {'/': {'a', 'b'}, '/a': {'a'}, '/b': set()}[ns]
+    if ns == '/' and 'root_z' in regs or ns == '/a' and 'a_z' in regs or \
+            ns == '/b' and 'b_z' in regs:
+        events = events | {'z'}
+    if name in events:
+        return ('late' if name == 'z' else 'fn'), ns, []
+    if ns == '/a' or ns == '/' and 'root_star' in regs:
+        return 'catchall', ns, [name]
+    if name == 'z' and 'star_z' in regs:
+        return 'starns', '*', [ns]
+    if 'star_star' in regs:
+        return 'starstar', '*', [name, ns]
+    if ns == '/b' and name in ('a', 'b'):
+        return 'class', ns, []
+    return None
 
 
 def _shape(args):
@@ -138,13 +167,14 @@ def _run(case, h):
     coro = case['coro'] and aio
     log = []
     rets = {}
+    faults = {}
 
     def result(args):
         for a in args:
             if isinstance(a, dict) and set(a) == {'__tag'}:
-                if rets[a['__tag']] == '__raise__':
+                if faults.get(a['__tag']) == '__raise__':
                     raise RuntimeError('application handler fault')
-                if rets[a['__tag']] == '__raise_type__':
+                if faults.get(a['__tag']) == '__raise_type__':
                     raise TypeError('application handler fault')
                 return rets[a['__tag']]
         return None
@@ -248,6 +278,8 @@ def _run(case, h):
                             % (step, what, cb_log[-3:], expect_cb[-3:]))
 
     leaked = {n: set() for n in NSS}   # ids of emits that were never sent
+    regs = set()
+    seen_ev = set()
     last_id = {}
 
     def pick(ns, sel, j):
@@ -270,7 +302,7 @@ def _run(case, h):
 
     for step, op in enumerate(case['ops']):
         k = op['op']
-        ns = nss[op['ns'] % len(nss)]
+        ns = nss[op.get('ns', 0) % len(nss)]
         if k == 'sdisc_ns':
             if len(nss) < 2:
                 continue
@@ -287,8 +319,23 @@ def _run(case, h):
                 labels['nontrivial'] = True
             check_quiet(step, 'sdisc_ns')
             continue
+        if k == 'reg':
+            w = op['what']
+            if w in regs:
+                continue
+            rn, re_ = {'root_star': ('/', '*'), 'root_z': ('/', 'z'),
+                       'a_z': ('/a', 'z'), 'b_z': ('/b', 'z'),
+                       'star_z': ('*', 'z'), 'star_star': ('*', '*')}[w]
+            kind = {'root_star': 'catchall', 'star_z': 'starns',
+                    'star_star': 'starstar'}.get(w, 'late')
+            sio.on(re_, mk(kind, rn), namespace=rn)
+            regs.add(w)
+            if seen_ev:
+                labels['handler_registered_after_events'] = True
+            continue
         if k == 'ev':
             dirs.add('in')
+            seen_ev.add((ns, op['name']))
             tag[0] += 1
             rets[tag[0]] = op['ret']
             args = [{'__tag': tag[0]}] + list(op['args'])
@@ -301,18 +348,18 @@ def _run(case, h):
                 labels['binary_event_without_attachments'] = True
             for f in frs:
                 h.deliver(f)
-            tgt = responsible(ns, op['name'])
+            tgt = responsible(ns, op['name'], regs)
             new = log[nlog:]
             if tgt is None:
                 if new:
                     raise Violation('invoked-unexpectedly', repr(new))
             else:
-                wargs = ([op['name']] if tgt == 'catchall' else []) + args
+                wargs = tgt[2] + args
                 if len(new) != 1:
                     raise Violation('invocation-count', '%r on %s: %r'
                                     % (op['name'], ns, new))
-                if new[0][0] != tgt or new[0][1] != ns or not strict_eq(
-                        list(new[0][2]), wargs):
+                if new[0][0] != tgt[0] or new[0][1] != tgt[1] or \
+                        not strict_eq(list(new[0][2]), wargs):
                     raise Violation('wrong-target-or-arguments',
                                     '%r expected %s %r' % (new[0], tgt,
                                                            wargs))
@@ -334,12 +381,13 @@ def _run(case, h):
                                     % (op['id'], ns, r, pk))
             check_quiet(step, 'ev')
         elif k == 'fault_ev':
-            if responsible(ns, 'a') is None:
+            if responsible(ns, 'a', regs) is None:
                 continue
             dirs.add('in')
             nlog = len(log)
             tag[0] += 1
-            rets[tag[0]] = op.get('exc', '__raise__')
+            faults[tag[0]] = op.get('exc', '__raise__')
+            rets[tag[0]] = None
             t1 = tag[0]
             for f in wire.frames(wire.EVENT, ns, op['id'],
                                  ['a', {'__tag': t1}] + (
@@ -531,6 +579,32 @@ def _run(case, h):
     if dirs == {'in', 'out'}:
         labels['nontrivial'] = True
         labels['both_directions'] = True
+    last = case.get('last')
+    if last:
+        frames, wants = [], []
+        for e in last['evs']:
+            ns = nss[e['ns'] % len(nss)]
+            tag[0] += 1
+            rets[tag[0]] = None
+            args = [{'__tag': tag[0]}] + ([b'fin'] if e['binary'] else [])
+            frames += wire.frames(wire.EVENT, ns, e['id'],
+                                  [e['name']] + args)
+            tgt = responsible(ns, e['name'], regs)
+            if tgt is not None:
+                wants.append((tgt[0], tgt[1], tgt[2] + args))
+        nlog = len(log)
+        h.deliver_then_end(frames, last['how'])
+        new = log[nlog:]
+        if len(new) != len(wants) or not all(
+                g[0] == w[0] and g[1] == w[1] and strict_eq(list(g[2]), w[2])
+                for g, w in zip(new, wants)):
+            raise Violation('event-before-the-end-lost'
+                            if len(new) < len(wants) else 'invocation-count',
+                            'events read before the connection ended (%s): '
+                            'handled %r expected %r' % (last['how'], new,
+                                                        wants))
+        check_quiet(len(case['ops']), 'events before the end')
+        labels['events_right_before_the_end'] = last['how']
     return labels
 
 
